@@ -16,7 +16,7 @@ THEOREMS = [
     "Typedpy.C20.counter_wrong_field_named_extract_field_value", "Typedpy.C20.not_linearizable_extract_field_value",
     "Typedpy.C20.counter_wrong_element_tuple", "Typedpy.C20.counter_missing_key_set",
     "Typedpy.C20.counter_missing_key_map", "Typedpy.C20.counter_missing_key_positional",
-    "Typedpy.C20.C20_statement_false", "Typedpy.C20.tables_ok", "Typedpy.C20.tables_nonvacuous",
+    "Typedpy.C20.C20_statement_false", "Typedpy.C20.tables_ok", "Typedpy.C20.pinned_tables_ok", "Typedpy.C20.tables_nonvacuous",
     "Typedpy.C20.linearizable_example",
 ]
 RULE = ("one case = (shape = class shared by the threads, 2-3 thread operations on distinct instances, schedule family); "
